@@ -3,6 +3,7 @@ import VpnCloud.Model.Table
 import VpnCloud.Model.NodeInfo
 import VpnCloud.Model.Payload
 import VpnCloud.Generated.Interval
+import VpnCloud.Generated.Guards
 /-
   Model of `GenericCloud` (src/cloud.rs): `handle_socket_event` / `handle_net_message`,
   `handle_interface_data`, `housekeep` (peer timeouts, `crypto_housekeep`, announcements,
@@ -382,14 +383,14 @@ def announceInterval (updateFreq minPeerTimeout : Nat) : Option Nat :=
 
 /-- `reconnect_to_peers` -/
 def reconnectToPeers (env : CryptoEnv) (o : Oracle) (c : Ctx) (now : Int) : Ctx :=
-  let c1 := c.node.reconnect.foldl (fun c e => if e.next > now then c else connect env o c e.resolved) c
+  let c1 := c.node.reconnect.foldl (fun c e => if Generated.reconnectNotDue e.next now then c else connect env o c e.resolved) c
   let rc := c1.node.reconnect.map (fun e =>
     let e1 := if e.resolved.any (fun a => (lookupA c1.node.peers a).isSome) then { e with tries := 0, timeout := 1, next := now + 1 } else e
-    if e1.next > now then e1
+    if Generated.reconnectNotDue e1.next now then e1
     else
       let tries := e1.tries + 1
-      let (tries, timeout) := if tries > Generated.RECONNECT_TRIES then (0, e1.timeout * 2) else (tries, e1.timeout)
-      let timeout := if timeout > Generated.MAX_RECONNECT_INTERVAL then Generated.MAX_RECONNECT_INTERVAL else timeout
+      let (tries, timeout) := if Generated.backoffDoubles tries then (0, e1.timeout * 2) else (tries, e1.timeout)
+      let timeout := if Generated.backoffCapped timeout then Generated.MAX_RECONNECT_INTERVAL else timeout
       { e1 with tries, timeout, next := now + timeout })
   { c1 with node := { c1.node with reconnect := rc } }
 
@@ -397,14 +398,14 @@ def reconnectToPeers (env : CryptoEnv) (o : Oracle) (c : Ctx) (now : Int) : Ctx 
 def housekeep (env : CryptoEnv) (o : Oracle) (n : Node) (now : Int) : Ctx :=
   let c : Ctx := { node := n }
   -- peers whose timeout has passed
-  let dead := (n.peers.filter (fun (_, p) => p.timeout < now)).map (·.1)
+  let dead := (n.peers.filter (fun (_, p) => Generated.peerExpired p.timeout now)).map (·.1)
   let c1 := dead.foldl (fun c a =>
     let n := c.node
     connectSock env o { c with node := { n with peers := eraseA n.peers a, table := n.table.removeClaims now (addrId a) } } a) c
   let c2 := { c1 with node := { c1.node with table := c1.node.table.housekeep now } }
   let c3 := cryptoHousekeep env o c2 now
   let c4 :=
-    if c3.node.nextPeers ≤ now then
+    if Generated.announceDue c3.node.nextPeers now then
       let info := encodeNodeInfo (createNodeInfo c3.node)
       let c' := broadcastMsg o c3 Generated.MESSAGE_TYPE_NODE_INFO info
       let minPt := (c'.node.peers.map (fun (_, p) => p.peerTimeout)).foldl min (if c'.node.peers.isEmpty then Generated.DEFAULT_PEER_TIMEOUT else 65535)
@@ -414,7 +415,7 @@ def housekeep (env : CryptoEnv) (o : Oracle) (n : Node) (now : Int) : Ctx :=
     else c3
   let c5 := reconnectToPeers env o c4 now
   -- `reset_own_addresses`: advertised addresses, then the address of the UDP socket (port forwarding is not modelled)
-  if c5.node.nextOwnReset ≤ now then
+  if Generated.ownResetDue c5.node.nextOwnReset now then
     { c5 with node := { c5.node with own := c5.node.cfg.advertise ++ [c5.node.addr], nextOwnReset := now + 300 } }
   else c5
 
